@@ -178,6 +178,9 @@ type Gate struct {
 	Edges func(p *Prog, ifi *ssa.If) (t, f bool)
 	// Barrier reports whether executing instruction `in` satisfies the gate (ordering gates).
 	Barrier func(p *Prog, in ssa.Instruction) bool
+	// ErrOf (GOk gates): v is the error result of the gated call — a `return G(…)` tail delegation
+	// passes the gate exactly when it returns nil.
+	ErrOf func(p *Prog, v ssa.Value) bool
 }
 
 var negOp = map[token.Token]token.Token{token.EQL: token.NEQ, token.NEQ: token.EQL, token.LSS: token.GEQ,
@@ -258,10 +261,33 @@ func GCmp(x, op, y string) Gate {
 	return Gate{Name: fmt.Sprintf("%s %s %s", x, op, y), Edges: func(p *Prog, ifi *ssa.If) (bool, bool) {
 		tr, fr, ok := condCmp(p, ifi, p.matchD(px), p.matchD(py))
 		if !ok {
+			if w == token.NEQ {
+				// X == K' for a different constant K' implies X != K
+				otherConst := func(v ssa.Value) bool {
+					k, isK := v.(*ssa.Const)
+					return isK && k.Value != nil && !py.Match(p.D(v))
+				}
+				if _, isLit := isLiteralPat(y); isLit {
+					if tr, fr, ok := condCmp(p, ifi, p.matchD(px), otherConst); ok {
+						return tr == token.EQL, fr == token.EQL
+					}
+				}
+			}
 			return false, false
 		}
 		return implies(tr, w), implies(fr, w)
 	}}
+}
+
+// isLiteralPat: the pattern denotes one constant (a quoted string or a number).
+func isLiteralPat(s string) (string, bool) {
+	if s == "" || strings.ContainsAny(s, "*") {
+		return "", false
+	}
+	if s[0] == '"' || (s[0] >= '0' && s[0] <= '9') || s[0] == '-' {
+		return s, true
+	}
+	return "", false
 }
 
 // GTrue: the edge asserts that a boolean value matching pat is true.
@@ -308,13 +334,24 @@ func GNonNil(x string) Gate { return GCmp(x, "!=", "nil") }
 // GOk: the edge asserts that the error result of a call matching callPat is nil.
 func GOk(callPat string) Gate {
 	pc := P(callPat)
-	return Gate{Name: callPat + " succeeded", Edges: func(p *Prog, ifi *ssa.If) (bool, bool) {
-		isErrOfCall := func(v ssa.Value) bool {
-			if !isErrorType(v.Type()) {
-				return false
-			}
-			return p.errOfCall(v, pc, map[ssa.Value]bool{})
+	return gOk(callPat+" succeeded", func(p *Prog, c *ssa.Call) bool { return pc.Match(p.D(c)) })
+}
+
+// GOkTo: like GOk, the call given by its resolved callee full name (pattern).
+func GOkTo(calleePat string) Gate {
+	pc := P(calleePat)
+	return gOk("call of "+calleePat+" succeeded", func(p *Prog, c *ssa.Call) bool { return pc.Match(CalleeFullName(&c.Call)) })
+}
+
+func gOk(name string, isCall func(p *Prog, c *ssa.Call) bool) Gate {
+	errOf := func(p *Prog, v ssa.Value) bool {
+		if !isErrorType(v.Type()) {
+			return false
 		}
+		return p.errOfCall(v, isCall, map[ssa.Value]bool{})
+	}
+	return Gate{Name: name, ErrOf: errOf, Edges: func(p *Prog, ifi *ssa.If) (bool, bool) {
+		isErrOfCall := func(v ssa.Value) bool { return errOf(p, v) }
 		isNil := func(v ssa.Value) bool { k, ok := v.(*ssa.Const); return ok && k.IsNil() }
 		tr, fr, ok := condCmp(p, ifi, isErrOfCall, isNil)
 		if !ok {
@@ -326,7 +363,7 @@ func GOk(callPat string) Gate {
 
 // errOfCall: v is the error result of a call whose descriptor matches pc (possibly through
 // nil-preserving wrappers and single-assignment variables).
-func (p *Prog) errOfCall(v ssa.Value, pc *Pat, seen map[ssa.Value]bool) bool {
+func (p *Prog) errOfCall(v ssa.Value, pc func(p *Prog, c *ssa.Call) bool, seen map[ssa.Value]bool) bool {
 	if seen[v] {
 		return false
 	}
@@ -334,10 +371,10 @@ func (p *Prog) errOfCall(v ssa.Value, pc *Pat, seen map[ssa.Value]bool) bool {
 	switch x := v.(type) {
 	case *ssa.Extract:
 		if c, ok := x.Tuple.(*ssa.Call); ok {
-			return pc.Match(p.D(c))
+			return pc(p, c)
 		}
 	case *ssa.Call:
-		if pc.Match(p.D(x)) {
+		if pc(p, x) {
 			return true
 		}
 		if a := nilPreservingArg(&x.Call); a != nil {
@@ -494,6 +531,22 @@ func (p *Prog) MustPass(fn *ssa.Function, from ssa.Instruction, targets []ssa.In
 	var out []MustPassResult
 	for _, t := range targets {
 		r := MustPassResult{Target: t, NGates: n}
+		if ret, ok := t.(*ssa.Return); ok && res.reached[t] {
+			if idx := errResultIndex(fn); idx >= 0 && idx < len(ret.Results) {
+				tail := false
+				for _, g := range gates {
+					if g.ErrOf != nil && g.ErrOf(p, RetVal(ret, idx)) {
+						tail = true
+					}
+				}
+				if tail {
+					r.OK = true
+					r.Witness = "tail delegation: the returned error is the gated call's error"
+					out = append(out, r)
+					continue
+				}
+			}
+		}
 		if res.reached[t] {
 			r.OK = false
 			r.Witness = "bypass path: " + p.path(res, t)
